@@ -7,7 +7,7 @@ Extraction Language OCaml.
 (* the resolver as pinned: the flags regenerated from name_resolution.rs on this run *)
 Definition resolve_pinned := Resolver.resolve gen_rflags.
 (* the resolver with every scope restored (what the specification describes) *)
-Definition resolve_fixed := Resolver.resolve (mkFlags true true true).
+Definition resolve_fixed := Resolver.resolve (mkFlags true true true true).
 Extraction "resolvemodel.ml" Resolved.mkResolved PAst.mkModule resolve_pinned resolve_fixed ResolveSpec.resolve_spec
   Topo.init_order GenResolve.gen_assign_target_deps Resolved.stmt_span
   Modules.tree Modules.use_path Modules.implicit_name GenResolve.gen_std_libs GenResolve.gen_std_uses.
